@@ -357,14 +357,32 @@ def structural(ctx0):
                                and self_attr(_slice_parts(c.args[0])[0], "buf") and _slice_parts(c.args[0])[1] is None)
         ctx.need(dec_first, "getPacket: decrypt(self.buf[:bs])")
         have_block = _cmp_edges(g, al, {BUFLEN: 1, DBS: -1}, 0, at_least=True)
-        stash_t = tests(g, lambda e: isinstance(e, ast.Call) and dotted(e.func) == "hasattr" and len(e.args) == 2 and src(e.args[0]) == "self" and const_is(e.args[1], "first"))
+        # "a decrypted first block is stashed": hasattr(self, "first"), or x = getattr(self, "first", <sentinel>) tested with `x is [not] <sentinel>`
+        stash_present = [(t, "T") for t in tests(g, lambda e: isinstance(e, ast.Call) and dotted(e.func) == "hasattr" and len(e.args) == 2 and src(e.args[0]) == "self"
+                                                 and const_is(e.args[1], "first"))]
+
+        def _single_def(name):
+            vals = [v for st in statements(f) if isinstance(st, ast.Assign) for t, v in assigned_pairs(st) if isinstance(t, ast.Name) and t.id == name]
+            return vals[0] if len(vals) == 1 else None
+        for t in g.ids(lambda n: n.kind == "test"):
+            e = g.node(t).ast
+            if isinstance(e, ast.Compare) and len(e.ops) == 1 and isinstance(e.ops[0], (ast.Is, ast.IsNot)) and isinstance(e.left, ast.Name):
+                dv, sent = _single_def(e.left.id), e.comparators[0]
+                if isinstance(dv, ast.Call) and dotted(dv.func) == "getattr" and len(dv.args) == 3 and src(dv.args[0]) == "self" and const_is(dv.args[1], "first") \
+                        and src(dv.args[2]) == src(sent):
+                    sd = _single_def(sent.id) if isinstance(sent, ast.Name) else sent
+                    if (isinstance(sd, ast.Call) and dotted(sd.func) == "object" and not sd.args) or const_is(sd, None):
+                        stash_present.append((t, "F" if isinstance(e.ops[0], ast.Is) else "T"))
+        ctx.need(stash_present, "getPacket: test whether a decrypted first block is stashed in self.first")
+        stash_absent = [(t, _other(lab)) for t, lab in stash_present]
+        stash_t = [t for t, _ in stash_present]
         for d in dec_first:
             c = calls_at(g, d, lambda c: csrc(c.func, al) == CE + ".decrypt")[0]
             sp = _slice_parts(c.args[0])
             ctx.check(sp[2] is not None and csrc(sp[2], al) == DBS, "segmentation/first-block", ctx.construct(q, c) + " | width", "the first decryption is not exactly one cipher block")
             ctx.check(bool(have_block) and guarded_by_edges(g, d, have_block), "segmentation/first-block", ctx.construct(q, c),
                       "the first block is decrypted before a whole cipher block is buffered: the cipher stream is advanced over partial data")
-            ctx.check(bool(stash_t) and guarded_by_edges(g, d, [(t, "F") for t in stash_t]), "segmentation/first-block-decrypted-once", ctx.construct(q, c),
+            ctx.check(guarded_by_edges(g, d, stash_absent), "segmentation/first-block-decrypted-once", ctx.construct(q, c),
                       "the first block is decrypted again although an already decrypted copy is stashed in self.first (CBC/CTR state corrupted when a packet "
                       "arrives in two segments)")
     with abstain(ctx0, 's/getPacket/whole-packet', 'receiver/ and tamper/ (bounded)'):
@@ -838,8 +856,10 @@ def structural(ctx0):
                       "after the version line was accepted the remaining 'lines' - which are binary packet data - are still scanned for 'SSH-': a payload "
                       "containing '\\nSSH-...\\n' that arrives in the same segment is taken for a second version line and the packet stream is cut",
                       witness=g.describe(w))
-        lv = fr.target.id if isinstance(fr.target, ast.Name) else "p"
-        sw_t = tests(g, lambda e: isinstance(e, ast.Call) and call_name(e) == f"{lv}.startswith" and len(e.args) == 1 and _bytes_consts(e.args[0]) == b"SSH-")
+        lvs = {x.id for x in ast.walk(fr.target) if isinstance(x, ast.Name)}
+        sw_t = tests(g, lambda e: isinstance(e, ast.Call) and isinstance(e.func, ast.Attribute) and e.func.attr == "startswith" and isinstance(e.func.value, ast.Name)
+                     and e.func.value.id in lvs and len(e.args) == 1 and _bytes_consts(e.args[0]) == b"SSH-")
+        ctx.need(sw_t, "dataReceived: <loop variable>.startswith(b'SSH-') test in the scan loop")
         for s in gv_set:
             ctx.check(bool(sw_t) and guarded_by_edges(g, s, [(t, "T") for t in sw_t]), "version/banner-lines-skipped", ctx.construct(q, g.node(s).ast) + " | guard",
                       "a line that does not start with 'SSH-' is accepted as the version line")
